@@ -15,6 +15,10 @@ static int *neigh, *imi, *ind, *imo;
 
 static float *zp;
 
+/* Verification hook (off by default): simulator yield points, see specpart_wrap.c */
+void (*specpart_verif_hook)(int) = 0;
+#define VERIF_POINT(n) do { if (specpart_verif_hook) specpart_verif_hook(n); } while (0)
+
 
 void ptnghb();
 void ptsort(int iihmax, int nnspec);
@@ -66,6 +70,7 @@ void partition(float * spec,
   int iang, ifreq, i;
 
   partinit(nk, nth);
+  VERIF_POINT(1);
 
   if ( nk != mk || nth != mth ) {
         printf("Error: partinit must be called with correct spectral dimensions\n");
@@ -79,6 +84,7 @@ void partition(float * spec,
     }
   }
 
+  VERIF_POINT(2);
   zmin = zp[0];
   zmax = zp[0];
 
@@ -109,8 +115,10 @@ void partition(float * spec,
 
   // Fills the ind table with indexes that correspond to increasing levels of energy
   ptsort(ihmax, nspec);
+  VERIF_POINT(3);
   
   pt_fld(imi, ind, imo, zp, ihmax);
+  VERIF_POINT(5);
     
   for (iang = 0; iang < mth; iang++) {
 	for (ifreq = 0; ifreq < mk; ifreq++) {
@@ -340,6 +348,8 @@ void pt_fld(int *imi,
   // 1.  loop over levels (binned spectral values)
   m = 0;
   for ( ih = 0; ih < ihmax; ih++ ) {
+    if ( ih % 16 == 0 )
+      VERIF_POINT(4);
     msave = m;
 
     // 1.a pixels at level ih
